@@ -168,3 +168,5 @@ def r20_5(cx):
 
 
 RULES = [('R20.1', r20_1), ('R20.2', r20_2), ('R20.3', r20_3), ('R20.4', r20_4), ('R20.5', r20_5)]
+RULES.append(('R20.6', scan_rule(('owning_iovec::implementation::', 'owning_iovec::global_deque::'))))
+FLOORS['R20.6'] = 1
